@@ -44,6 +44,11 @@ func checkCli(c CliCase) error {
 	}
 	var args []string
 	files := map[string]string{}
+	for _, n := range c.Names {
+		if c.Cmd == "outgroup-args" && strings.HasPrefix(n, "-") {
+			c.Cmd = "outgroup-file" // a name like "-0" cannot be typed as a bare argument
+		}
+	}
 	switch c.Cmd {
 	case "outgroup-args", "outgroup-file":
 		args = []string{"reroot", "outgroup"}
